@@ -59,6 +59,10 @@ def boundary_positions(rng, nside, n):
             t, f = hpg.pixel_to_angle(nside, np.array([p]), lonlat=False)
             th.append(float(t[0]))
             ph.append(float(f[0]))
+    # (hpgeom's boundary points can come out a rounding error beyond 2*pi, which it refuses as input)
+    two_pi = 2.0 * np.pi
+    ph = [p_ if 0.0 <= p_ < two_pi else (p_ % two_pi if 0.0 <= p_ % two_pi < two_pi else 0.0) for p_ in ph]
+    th = [min(max(t_, 0.0), float(np.pi)) for t_ in th]
     pix = hpg.angle_to_pixel(nside, np.array(th), np.array(ph), lonlat=False)
     return th, ph, [int(p) for p in pix]
 
